@@ -688,8 +688,11 @@ mutual
       rw [hM] at he
       have hW : ClosedB inR il K (genBlock body) (none, matA a) sb :=
         (closed_block body inR false true hb (matA a) he.mat).weaken
-      have := closed_matrix_operand (x := genName n)
-        (y := .moveq (.operand .matrixLight) (.reg .operand)) (plain_genName n) rfl he.2 hW
+      have h1 := closed_matrix_operand (x := genName n) (y := genName n) (plain_genName n)
+        (plain_genName n) he.2 hW
+      have h2 : ClosedB inR il K (ins [Instr.moveq (.operand .matrixLight) (.reg .operand)]) (none, a) sb :=
+        ci_one _ rfl _ _ _
+      have := h1.append h2
       simpa [List.append_assoc] using this
   theorem closed_operands (k : ActKind) : ∀ (ops : Operands) (inR inMat : Bool),
       wsOperands K inR inMat ops = true → ∀ a, Entry inMat a → ∀ (il : Bool) (sb : St),
